@@ -1,7 +1,7 @@
 """Property id -> check function."""
 import json
 
-from . import props_pool, props_router, props_plugins, props_relay
+from . import props_pool, props_router, props_plugins, props_relay, props_pause
 
 CHECKS = {
     'C01': props_pool.check,
@@ -13,6 +13,7 @@ CHECKS = {
     'C06': props_router.check_c06,
     'C19': props_plugins.check_c19,
     'C03': props_relay.check_c03,
+    'C16': props_pause.check_c16,
 }
 
 
